@@ -222,6 +222,12 @@ def _run_shard(args):
                 mod.replay(payload, ctx)
             except Violation as v:
                 ctx.record_violation(v)
+        elif mode == "fuzz":
+            from vlib import fuzz
+            out = fuzz.run_worker(modname, tier, seed, shard, nshards, payload[0], payload[1])
+            out["error"] = None
+            out["wall"] = time.time() - t0
+            return out
         else:
             mod.shard(ctx)
         out = ctx.export()
@@ -250,6 +256,7 @@ def run_check(modname, argv=None):
     except ValueError:
         seed = 1
     t0 = time.time()
+    fuzz_note = None
     from vlib import workspace
     try:
         workspace.prepare()
@@ -270,6 +277,19 @@ def run_check(modname, argv=None):
                     if fn.endswith(".json"):
                         case = json.load(open(os.path.join(rdir, fn)))
                         jobs.append((modname, a.tier, seed, 1000 + len(jobs), 1, "replay", case.get("case", case)))
+            # coverage-guided tier (atheris / libFuzzer through Hypothesis' fuzz_one_input) for the checks that opt in
+            targets = getattr(mod, "FUZZ_TARGETS", {})
+            if targets:
+                from vlib import fuzz
+                if fuzz.ensure_atheris():
+                    for name, (_b, qruns, truns, workers) in sorted(targets.items()):
+                        runs = truns if a.tier == "thorough" else qruns
+                        for w in range(workers if runs else 0):
+                            jobs.append((modname, a.tier, seed, 2000 + len(jobs), workers, "fuzz", (name, runs)))
+                else:
+                    fuzz_note = "coverage-guided tier skipped: atheris could not be imported or installed from /opt/veriftools/wheels"
+            if os.environ.get("VERIF_ONLY"):      # experiments only (e.g. VERIF_ONLY=fuzz): restrict the job kinds
+                jobs = [j for j in jobs if j[5] == os.environ["VERIF_ONLY"]]
         ctxm = mp.get_context("fork")
         procs = min(len(jobs), int(os.environ.get("VERIF_PROCS", "16")))
         if procs <= 1:
@@ -336,8 +356,10 @@ def run_check(modname, argv=None):
                    known_finding_hits=dict(known_hits), max_residuals=maxres,
                    exhaustive=bool(getattr(mod, "EXHAUSTIVE", {}).get(a.tier, False)),
                    shards=len(jobs))
+        if fuzz_note:
+            notes.append(fuzz_note)
         if notes:
-            cov["notes"] = notes[:20]
+            cov["notes"] = notes[:40]
         ev = dict(property_id=prop, tier=a.tier, seed=seed, level="exploration", coverage=cov,
                   assumptions=list(getattr(mod, "ASSUMPTIONS", [])), wall_s=round(wall, 2), violations=len(violations))
         json.dump(jsonable(ev), open(os.path.join(EVIDENCE_DIR, prop + ".json"), "w"), indent=1, sort_keys=True)
